@@ -319,7 +319,45 @@ func runChildSeq(self string, k, c int64, cases []hcase, lo, hi int, res []hres,
 	}
 }
 
+// guardPatient runs f with a watchdog that only bounds hangs: a first deadline of 2 s, and — the
+// machine may be busy — a further 60 s before the call is declared hung.  The verdict does not
+// depend on how fast the machine is, only on whether the call ever returns.
+func guardPatient(f func()) vh.Outcome {
+	ch := make(chan vh.Outcome, 1)
+	go func() { ch <- vh.Guard(f) }()
+	select {
+	case o := <-ch:
+		return o
+	case <-time.After(2 * time.Second):
+	}
+	select {
+	case o := <-ch:
+		return o
+	case <-time.After(60 * time.Second):
+		return vh.Outcome{Timeout: true}
+	}
+}
+
 func runChildren(self string, k, c int64, cases []hcase, workers int, perCase time.Duration) []hres {
+	res := runChildrenOnce(self, k, c, cases, workers, perCase)
+	// load-proofing: a watchdog expiry or a death without a Go fatal error (e.g. killed from outside)
+	// may be the machine, not the decoder: such a case is run again, alone, with a deadline that only
+	// bounds hangs; a real hang / crash reproduces, anything else does not
+	again := 0
+	for i := range res {
+		if again >= 6 {
+			break
+		}
+		if res[i].class == "timeout" || (res[i].class == "fatal" && strings.HasPrefix(res[i].site, "crash:")) {
+			again++
+			r2 := runChildrenOnce(self, k, c, cases[i:i+1], 1, 240*time.Second)
+			res[i] = r2[0]
+		}
+	}
+	return res
+}
+
+func runChildrenOnce(self string, k, c int64, cases []hcase, workers int, perCase time.Duration) []hres {
 	res := make([]hres, len(cases))
 	if len(cases) == 0 {
 		return res
